@@ -452,6 +452,11 @@ impl ContinuityStore {
         let index = load_index(&index_path(&data_dir)).unwrap_or_default();
         let (sender, _receiver) = broadcast::channel(EVENT_CHANNEL_CAPACITY);
         let stream_cache = ContinuityStreamCache::new(&data_dir);
+        // Crash recovery: continuity appends are serialized, so only the last continuity frame in
+        // the log can be missing from its caches.
+        if let Some(event) = last_continuity_frame_in_log_tail(&data_dir.join("events.jsonl")) {
+            stream_cache.remove_if_lagging_best_effort(&event);
+        }
         Ok(Self {
             data_dir,
             workspace_root,
@@ -3846,6 +3851,43 @@ fn resolve_context_compile_cutpoint_full(
 
     // Invariants: always include the anchor message itself.
     Ok((from_seq.max(message_seq), Some(message_id.to_string())))
+}
+
+/// Finds the last continuity frame of the truth log by scanning a growing tail window backwards.
+fn last_continuity_frame_in_log_tail(log_path: &Path) -> Option<Event> {
+    use std::io::{Read, Seek, SeekFrom};
+
+    const INITIAL_WINDOW: u64 = 64 * 1024;
+    const MAX_WINDOW: u64 = 64 * 1024 * 1024;
+
+    let mut file = fs::File::open(log_path).ok()?;
+    let len = file.metadata().ok()?.len();
+    let mut window = INITIAL_WINDOW;
+    loop {
+        let start = len.saturating_sub(window);
+        file.seek(SeekFrom::Start(start)).ok()?;
+        let mut buf = Vec::new();
+        file.read_to_end(&mut buf).ok()?;
+        let mut lines: Vec<&[u8]> = buf.split(|byte| *byte == b'\n').collect();
+        if start > 0 && !lines.is_empty() {
+            // The first line of the window is (possibly) cut.
+            lines.remove(0);
+        }
+        for line in lines.iter().rev() {
+            if line.is_empty() {
+                continue;
+            }
+            if let Ok(event) = serde_json::from_slice::<Event>(line) {
+                if event.stream_kind() == StreamKind::Continuity {
+                    return Some(event);
+                }
+            }
+        }
+        if start == 0 || window >= MAX_WINDOW {
+            return None;
+        }
+        window = (window * 4).min(MAX_WINDOW);
+    }
 }
 
 fn index_path(data_dir: &Path) -> PathBuf {
